@@ -106,3 +106,14 @@ package parser
 //@ # uses this when it abstracts such code (callee without contract, loop body, interface call) and
 //@ # justifies it by `encap` obligations over every function of the three packages.
 //@ preserved wfP ti/parser.Parser owners ti/parser,ti/lexer,ti/lexer/reader
+//@ # The reader and lexer APIs are internal to the token pipeline: only these packages call them,
+//@ # so evaluator code cannot move the lexer behind the parser's back.
+//@ internal (*ti/lexer/reader.LexerReader).Read ti/lexer,ti/lexer/reader
+//@ internal (*ti/lexer/reader.LexerReader).Unread ti/lexer,ti/lexer/reader
+//@ internal (*ti/lexer/reader.LexerReader).AppendHistory ti/lexer,ti/lexer/reader
+//@ internal (*ti/lexer.Lexer).Advance ti/parser,ti/lexer
+//@ internal ti/lexer.Intern ti/lexer
+
+//@ func ti/parser.New
+//@   safe
+//@   ensures result.Lexer == lexer && result.Row == 1 && !result.ungetFlg && result.token == 0 && result.FileName == file
